@@ -72,7 +72,7 @@ static Bytes payload(Rng &r, int tier) {
     else len = (tier || r.chance(1, 3)) ? (r.chance(1, 2) ? 32760 + r.below(16) : 65530 + r.below(4500)) : 300 + r.below(400);
     Bytes b(len);
     uint8_t seed = (uint8_t)r.below(256);
-    for (size_t i = 0; i < len; i++) b[i] = (uint8_t)(seed + i * 7);
+    for (size_t i = 0; i < len; i++) b[i] = (uint8_t)(1 + (seed + i * 7) % 255);        // no accidental 0x00: the NUL-terminated entry points must see the full length
     if (len && r.chance(1, 4)) b[r.below(len)] = 0;
     return b;
 }
